@@ -169,6 +169,19 @@ def run(chk):
         callees = [cp for cp, s in cg.calls.get(fnp, ())]
         chk.check(any(c.endswith("TapeImpl>::" + meth) or c.endswith("TapeImpl::" + meth) for c in callees) and len([c for c in callees if "Tape" in c]) >= 1,
                   "T-WRITERS/Emulator::%s" % api, "%s does not forward to the deck's %s: %s" % (api, meth, callees))
+    # a deck command changes the deck and nothing else of the machine
+    chk.rule("T-NONINT/deck", "mod set of play_tape / stop_tape / rewind_tape is the tape deck (and the asset behind it)")
+    EM = prog.adt_path("rustzx_core", "Emulator")
+    names_ = cc.Names(prog)
+    TAPE_ADTS = [p_ for p_ in prog.adts if p_.startswith("rustzx_core::zx::tape::")]
+    deck = {(EM, "controller"), (names_.CTL, "tape")}
+    for a_ in TAPE_ADTS:
+        for v_ in prog.adt(a_)["variants"]:
+            deck |= set((a_, f_["name"]) for f_ in v_["fields"])
+    # assets (host-side readers) are positioned by rewind: their own fields are theirs to change
+    is_asset = lambda adt, field: adt.startswith("rustzx_core::host::") or adt.startswith("rustzx_utils::")
+    for api in ("play_tape", "stop_tape", "rewind_tape"):
+        cc.check_mod_set(chk, prog, cg, fa, api, deck, "T-NONINT/deck/%s" % api, "the tape deck", ignore=is_asset)
     chk.count("law-instances", n_laws)
     chk.floor("law-instances", 150)
     chk.sample({"laws": ["stop;stop==stop", "stop;play resumes", "play;play==play", "end of tape -> (Stop,Stop)", "rewind(stopped);play -> Play"], "instances": n_laws})
